@@ -13,6 +13,7 @@ func init() {
 		&Rule{ID: "RV-ENUM", Doc: "RevocationIds returns the authority signature followed by the signature of every block, in order, unfiltered", Run: ruleRVEnum, Min: 3},
 		&Rule{ID: "WR-VERBATIM", Doc: "derived envelopes reuse the parent's signed blocks verbatim (same Authority pointer, full copy of Blocks, at most one new block appended at the end); Serialize marshals the stored envelope", Run: ruleWRVerbatim, Min: 5},
 		&Rule{ID: "SEAL-GUARD", Doc: "Append and Seal refuse (error) when the token has no next secret, before signing anything", Run: ruleSealGuard, Min: 4},
+		&Rule{ID: "DERIVE-SAME", Doc: "the token returned by Append holds a complete copy of the parent's authority block and of every parent block at the same index, then the appended block", Run: ruleDeriveSame, Min: 3},
 		&Rule{ID: "SEAL-SAME", Doc: "the sealed token carries copies of the parent's authority, blocks and symbols and the same signed blocks", Run: ruleSealSame, Min: 5},
 		&Rule{ID: "RV-FRESH", Doc: "every operation that signs returns the token it has just signed (no memoised or shared token): each call draws its own key and produces its own signature", Run: ruleRVFresh, Min: 3},
 		&Rule{ID: "SEAL-NOPROOF", Doc: "no code reachable from the authorizer's methods reads the token's proof", Run: ruleSealNoProof, Min: 1},
@@ -135,6 +136,15 @@ func ruleWRVerbatim(p *Prog, r *Reporter) {
 		for _, c := range callsIn(fn) {
 			if isCallTo(c.Common(), "google.golang.org/protobuf/proto.Marshal") && p.D(c.Common().Args[0]) == fn.Params[0].Name()+".container" {
 				ok = true
+				// every return hands out exactly what Marshal produced (no cached or caller-supplied bytes)
+				for _, ret := range returnsOf(fn) {
+					e0, is0 := retVal(ret, 0).(*ssa.Extract)
+					if !is0 || e0.Tuple != ssa.Value(c.(*ssa.Call)) {
+						if !isErrorReturn(ret) {
+							ok = false
+						}
+					}
+				}
 			}
 		}
 		r.Check(ok, p.Pos(fn.Pos()), p.FuncName(fn), "Serialize", "marshals the stored envelope (existing block bytes are never re-encoded)", "Serialize does not marshal the token's stored envelope")
@@ -320,15 +330,8 @@ func ruleSealSame(p *Prog, r *Reporter) {
 		}
 	}
 	// authority: new Block holding a copy of *T.authority
-	okAuth := false
-	if a, ok := f["authority"].(*ssa.Alloc); ok {
-		for _, st := range storesDirect(a) {
-			if p.D(st.Val) == "*"+T+".authority" {
-				okAuth = true
-			}
-		}
-	}
-	r.Check(okAuth, pos, name, "authority", "copy of the parent's authority block", "the sealed token's authority block is not a copy of the parent's")
+	okAuth, whyAuth := blockCopy(p, f["authority"], func(x ssa.Value) bool { return p.D(x) == T+".authority" })
+	r.Check(okAuth, pos, name, "authority", "copy of the parent's authority block", "the sealed token's authority block is not a copy of the parent's: "+whyAuth)
 	// blocks: make(len(T.blocks)) filled by a full-range loop with copies of each block
 	okBlocks := false
 	why := "blocks are not a full element-wise copy of the parent's blocks"
@@ -344,12 +347,10 @@ func ruleSealSame(p *Prog, r *Reporter) {
 						continue
 					}
 					// blocks[i] = &copied, with copied := *old
-					if al, isAl := st.Val.(*ssa.Alloc); isAl {
+					if _, isAl := st.Val.(*ssa.Alloc); isAl {
 						if ia, isIA := st.Addr.(*ssa.IndexAddr); isIA && ia.X == ssa.Value(mk) && ia.Index == ssa.Value(rl.incr) {
-							for _, s2 := range storesDirect(al) {
-								if ld, isLd := s2.Val.(*ssa.UnOp); isLd && ld.Op == token.MUL && rl.isElem(ld.X) {
-									okBlocks = true
-								}
+							if c, _ := blockCopy(p, st.Val, func(x ssa.Value) bool { return rl.isElem(x) }); c {
+								okBlocks = true
 							}
 						}
 					}
@@ -458,4 +459,151 @@ func ruleRVFresh(p *Prog, r *Reporter) {
 			r.Check(fresh, p.instrPos(ret), name, "returned token", "each call returns the token it has just built and signed", what)
 		}
 	}
+}
+
+// blockCopy: is v (a *Block) the source block itself or a complete copy of it?
+// isSrc recognises the pointer to the source block.
+func blockCopy(p *Prog, v ssa.Value, isSrc func(ssa.Value) bool) (bool, string) {
+	if isSrc(v) {
+		return true, ""
+	}
+	a, ok := v.(*ssa.Alloc)
+	if !ok {
+		return false, shortD(v) + " is neither the parent's block nor a copy of it"
+	}
+	for _, st := range storesDirect(a) {
+		if ld, isLd := st.Val.(*ssa.UnOp); isLd && ld.Op == token.MUL && isSrc(ld.X) {
+			return true, ""
+		}
+	}
+	// field by field: every field of the struct from the same field of the source
+	stt, isS := deref(a.Type()).Underlying().(*types.Struct)
+	if !isS {
+		return false, "not a struct copy"
+	}
+	f := litFields(a)
+	if len(f) == 0 {
+		return false, "the new block is never filled from the parent's block"
+	}
+	for i := 0; i < stt.NumFields(); i++ {
+		fn := stt.Field(i).Name()
+		val, set := f[fn]
+		if !set {
+			return false, "field " + fn + " of the parent's block is not carried over"
+		}
+		okField := false
+		srcField := func(x ssa.Value) bool {
+			ld, isLd := x.(*ssa.UnOp)
+			if !isLd || ld.Op != token.MUL {
+				return false
+			}
+			fa, isFA := ld.X.(*ssa.FieldAddr)
+			return isFA && isSrc(fa.X) && fieldName(fa) == fn
+		}
+		if srcField(val) {
+			okField = true
+		} else if c, isC := val.(*ssa.Call); isC {
+			if cal := c.Call.StaticCallee(); cal != nil && cal.Name() == "Clone" && len(c.Call.Args) == 1 && srcField(c.Call.Args[0]) {
+				okField = true
+			}
+		}
+		if !okField {
+			return false, "field " + fn + " is " + shortD(val) + ", not the parent's block's " + fn
+		}
+	}
+	return true, ""
+}
+
+func ruleDeriveSame(p *Prog, r *Reporter) {
+	globalP = p
+	// the appending method: signs a link payload and has a token parameter
+	var app *ssa.Function
+	for _, fn := range p.funcsIn("biscuit") {
+		if tokenParam(fn) == nil {
+			continue
+		}
+		for _, c := range callsIn(fn) {
+			if isCallTo(c.Common(), "crypto/ed25519.Sign") && p.payloadOf(c.Common().Args[1]).shape == "link" {
+				app = fn
+			}
+		}
+	}
+	if app == nil {
+		r.Bad("?", "biscuit", "appending method", "no method of a token signs a link payload")
+		return
+	}
+	name := p.FuncName(app)
+	tok := tokenParam(app)
+	T := tok.Name()
+	var lit *ssa.Alloc
+	for _, a := range allocsOf(app, "biscuit", "Biscuit") {
+		lit = a
+	}
+	if lit == nil {
+		r.Bad(p.Pos(app.Pos()), name, "result", "no Biscuit literal")
+		return
+	}
+	f := litFields(lit)
+	pos := p.instrPos(lit)
+	ok, why := blockCopy(p, f["authority"], func(x ssa.Value) bool { return p.D(x) == T+".authority" })
+	r.Check(ok, pos, name, "authority", "the parent's authority block, completely", "the derived token's authority block is not a complete copy of the parent's: "+why+" (content signed in the envelope is missing from the token that is evaluated)")
+	// blocks
+	okBlocks, okLast := false, false
+	whyB := "blocks are not a full element-wise copy of the parent's blocks"
+	if mk, isMk := f["blocks"].(*ssa.MakeSlice); isMk && p.D(mk.Len) == "(len("+T+".blocks)+1:int)" {
+		for _, rl := range rangeLoops(app) {
+			if p.D(rl.seq) != T+".blocks" {
+				continue
+			}
+			isElem := func(x ssa.Value) bool { return rl.isElem(x) }
+			for b := range rl.body {
+				for _, in := range b.Instrs {
+					st, isSt := in.(*ssa.Store)
+					if !isSt {
+						continue
+					}
+					if ia, isIA := st.Addr.(*ssa.IndexAddr); isIA && ia.X == ssa.Value(mk) && ia.Index == ssa.Value(rl.incr) {
+						if c, w := blockCopy(p, st.Val, isElem); c {
+							okBlocks = true
+						} else if w != "" {
+							// blocks[i] = new(Block); *blocks[i] = *old
+							if al, isAl := st.Val.(*ssa.Alloc); !isAl || len(litFields(al)) > 0 {
+								whyB = w
+							}
+						}
+					}
+					if ld, isLd := st.Val.(*ssa.UnOp); isLd && ld.Op == token.MUL && rl.isElem(ld.X) {
+						if dl, isDl := st.Addr.(*ssa.UnOp); isDl {
+							if ia, isIA := dl.X.(*ssa.IndexAddr); isIA && ia.X == ssa.Value(mk) && ia.Index == ssa.Value(rl.incr) {
+								okBlocks = true
+							}
+						}
+					}
+				}
+			}
+		}
+		for _, st := range storesIntoSlice(app, mk) {
+			if ia := st.Addr.(*ssa.IndexAddr); p.D(ia.Index) == "len("+T+".blocks)" {
+				if _, isP := st.Val.(*ssa.Parameter); isP {
+					okLast = true
+				}
+			}
+		}
+	}
+	r.Check(okBlocks, pos, name, "blocks", "every parent block completely copied at the same index", whyB)
+	r.Check(okLast, pos, name, "appended block", "the block parameter is stored after the parent's blocks", "the appended block is not stored at index len(parent blocks) of the new token's blocks")
+}
+
+func storesIntoSlice(fn *ssa.Function, mk *ssa.MakeSlice) []*ssa.Store {
+	var out []*ssa.Store
+	for _, ref := range *mk.Referrers() {
+		if ia, ok := ref.(*ssa.IndexAddr); ok && ia.X == ssa.Value(mk) {
+			for _, rr := range *ia.Referrers() {
+				if st, ok := rr.(*ssa.Store); ok && st.Addr == ssa.Value(ia) {
+					out = append(out, st)
+				}
+			}
+		}
+	}
+	return out
 }
